@@ -546,7 +546,9 @@ __find_trno(const struct zif_s z[static 1U], stamp_t t, int min, int max)
 		return -1;
 	} else if (UNLIKELY(t < zif_trans(z, min))) {
 		return -1;
-	} else if (UNLIKELY(t > zif_trans(z, max))) {
+	} else if (UNLIKELY(t >= zif_trans(z, max))) {
+		/* at or past the last transition, zif_trans() clamps beyond
+		 * the table so the bisection could never find this one */
 		return max - 1;
 	}
 
@@ -561,7 +563,7 @@ __find_trno(const struct zif_s z[static 1U], stamp_t t, int min, int max)
 			/* found him */
 			return this;
 		} else if (t >= tu) {
-			min = this;
+			min = this + 1;
 		} else if (t < tl) {
 			max = this;
 		}
@@ -599,7 +601,7 @@ __find_zrng(const struct zif_s z[static 1U], stamp_t t, int min, int max)
 		res.prev = STAMP_MIN;
 		res.next = STAMP_MAX;
 	} else {
-		res.trno = (uint8_t)trno;
+		res.trno = trno;
 		if (LIKELY(trno + 1U < z->ntr)) {
 			res.next = zif_trans(z, trno + 1U);
 		} else {
